@@ -419,7 +419,69 @@ def rule_sites(ctx):
     return rr
 
 
+def rule_refs(ctx):
+    """Load-time evaluation of defined names keeps references only."""
+    rr = RuleResult('C13', 'C13.refs', 'MPT',
+                    'the load-time evaluation of defined names keeps only '
+                    'range references, never computed values', floor=1)
+    p = ctx.project
+    f = p.func('formulas/excel/__init__.py', 'ExcelModel._update_refs')
+    ranges_cls = p.cls('formulas/ranges.py', 'Ranges')
+    # sol = <dispatcher>(...) ; refs.update({... for k, v in sol.items() if ...})
+    sols = set()
+    for n in own_nodes(f):
+        if isinstance(n, ast.Assign) and isinstance(n.value, ast.Call) and \
+                isinstance(n.value.func, ast.Name) and isinstance(
+                n.targets[0], ast.Name):
+            sols.add(n.targets[0].id)
+    upd = [n for n in own_nodes(f) if isinstance(n, ast.Call)
+           and call_name(n) == 'update' and n.args and isinstance(
+        n.args[0], (ast.DictComp, ast.GeneratorExp, ast.ListComp))]
+    upd = [u for u in upd if any(isinstance(x, ast.Name) and x.id in sols
+                                 for x in ast.walk(u.args[0]))]
+    rr.instances = max(1, len(upd))
+    if not upd:
+        rr.ok('_update_refs does not store evaluation results', f.module.rel,
+              nontrivial=False)
+        return rr
+    for u in upd:
+        comp = u.args[0]
+        val_name = None
+        g = comp.generators[0]
+        if isinstance(g.target, ast.Tuple) and len(g.target.elts) == 2 and \
+                isinstance(g.target.elts[1], ast.Name):
+            val_name = g.target.elts[1].id
+        only_ranges = False
+        admitted = []
+        for cond in g.ifs:
+            for c in ast.walk(cond):
+                if isinstance(c, ast.Call) and isinstance(c.func, ast.Name) and \
+                        c.func.id == 'isinstance' and len(c.args) == 2 and \
+                        isinstance(c.args[0], ast.Name) and \
+                        c.args[0].id == val_name:
+                    t = c.args[1]
+                    elts = t.elts if isinstance(t, ast.Tuple) else [t]
+                    classes = [ctx.cg.resolve_name_expr(f, e) for e in elts]
+                    admitted = [src(e) for e in elts]
+                    only_ranges = all(r and r[0] == 'class' and
+                                      p.is_subclass(r[1], ranges_cls)
+                                      for r in classes)
+        if only_ranges:
+            rr.ok('_update_refs keeps a result only if it is a Ranges '
+                  '(a reference), so no computed value is fixed at load time',
+                  '%s:%d' % (f.module.rel, u.lineno))
+        else:
+            rr.fail(key_of(f, 'keeps computed values of defined names'),
+                    '_update_refs evaluates defined names at load time and '
+                    'keeps results of kind %s: a name defined by a volatile '
+                    'formula (=RAND(), =NOW()) is fixed when the workbook is '
+                    'loaded and folded into every formula that uses it' % (
+                        admitted or 'any'), file=f.module.rel,
+                    function=f.qualname, line=u.lineno)
+    return rr
+
+
 def run(ctx):
     r1, reaching, reach = rule_impure(ctx)
     return [r1, rule_mask(ctx), rule_nomemo(ctx, reaching, reach),
-            rule_sites(ctx)]
+            rule_sites(ctx), rule_refs(ctx)]
